@@ -73,6 +73,9 @@ def run_limit(gname, kname, z0, method, path, order, ratio, residue_p=None):
                     return g(z) / (z - z0) ** p
                 obj = Residue(f, method=method, order=order, pole_order=p, full_output=True, path=path,
                               step_ratio=ratio)
+            if order % 2 == 0:
+                import copy
+                obj = copy.deepcopy(obj)       # even orders: used through a deep copy (an equal object)
             val, info = obj(z0)
     return val, info
 
